@@ -19,6 +19,8 @@ RULE = (
     "Non-trivial: permutations where the grid dimensions are not the trailing dimensions in "
     "convention order, non-default kinds, name collisions."
 )
+LEVEL_TEXT = ('every permutation of 0..3 extra dimensions with the grid dimensions of every grid kind, every wind mode (default/axis/name) and linear-dimension naming case, both round-trip directions, against numpy.moveaxis+reshape')
+LEVEL_NOTE = ('numpy/xarray transposition semantics; names colliding with a remaining dimension may be refused')
 ASSUMPTIONS = [
     "a linear-dimension name that collides with a remaining dimension cannot be represented: an "
     "exception is accepted there, a completed round trip with different values is not (DESIGN 6)",
